@@ -451,6 +451,11 @@ func (s *MergeExp) BindingPath(bindPath string,
 			arr.Value[i] = iv
 		}
 		return &arr, s.wrapError(errs.If())
+	case ModeNullMapCall:
+		// Mapping over null produces null.
+		return &NullExp{
+			valExp: valExp{Node: *v.getNode()},
+		}, s.wrapError(err)
 	default:
 		panic("invalid merge kind " + src.CallMode().String())
 	}
